@@ -556,11 +556,11 @@ class Gen:
             w = rng.choice(['STRING', 'WSTRING'])
             ll, lv = self.integer(1, 80)
             o, c = ('[', ']') if k == 'string' else ('(', ')')
-            body = rng.choice([None, 'abc', ''])
+            body = rng.choice([None, 'abc', ''] + ([] if 'string-type-init-quote' in self.excl else ['it"s' if w == 'STRING' else "it's", '"' if w == 'STRING' else "'"]))
             q = "'" if w == 'STRING' else '"'
             lex = head + [('kw', w), G, ('p', o), G] + ll + [G, ('p', c)] + ([G, ('p', ':='), G, ('lit', q + body + q)] if body is not None else [])
             return lex, T('String', N('StringDeclaration', ('type_name', nt), ('length', self.sx_integer(lv)), ('width', A('String' if w == 'STRING' else 'WString')),
-                                    ('init', SOME(A('"' + body + '"')) if body is not None else NONE)))
+                                    ('init', SOME(A('"' + body.replace('\\', '\\\\').replace('"', '\\"') + '"')) if body is not None else NONE)))
         if k == 'simple':
             tl, tt, _ = self.elementary(['INT', 'BOOL', 'REAL', 'DINT', 'WORD', 'TIME']) if rng.random() < 0.7 else (self.type_name() + (None,))
             cl, c = self.constant(['int', 'real', 'bool', 'based'])
@@ -592,7 +592,7 @@ class Gen:
         elif k == 'string':
             w = rng.choice(['STRING', 'WSTRING'])
             length = self.integer(1, 80) if rng.random() < 0.5 else None
-            body = rng.choice([None, 'abc', 'x y'])
+            body = rng.choice([None, 'abc', 'x y', 'it"s' if w == 'STRING' else "it's", '"q"' if w == 'STRING' else "'q'"])
             q = "'" if w == 'STRING' else '"'
             il = [('kw', w)] + ([G, ('p', '['), G] + length[0] + [G, ('p', ']')] if length else []) + ([G, ('p', ':='), G, ('lit', q + body + q)] if body is not None else [])
             it = T('String', N('StringInitializer', ('length', OPT(self.sx_integer(length[1]) if length else None)), ('width', A('String' if w == 'STRING' else 'WString')),
